@@ -120,3 +120,80 @@ Definition field_rules_ok_b (syn : syntax) (has_label is_required is_optional in
   | Proto3 => negb is_required && negb is_group && negb has_default
   | Editions => negb is_required && negb is_group && negb is_optional
   end.
+
+(* ------------------------------------------------------------------------------------------ *)
+(* descriptor-level validity of one message / enum / field (what validateBasic must decide).
+   [strict_names]: the Go code also rejects reserved names that are not identifiers; protoc only
+   warns (documented divergence, parser/validate_test.go), so the oracle uses strict_names = false. *)
+
+Definition ident_ok (s : name) : Prop :=
+  match s with
+  | [] => False
+  | c :: r =>
+    let alpha := fun c : N => ((97 <= c <= 122) \/ (65 <= c <= 90) \/ c = 95)%N in
+    alpha c /\ Forall (fun c => alpha c \/ (48 <= c <= 57)%N) r
+  end.
+
+Definition msg_desc_ok (strict_names : bool) (syn : syntax) (rsvr extr : list (Z * Z)) (rsvn : list name)
+           (fields : list (name * Z)) : Prop :=
+  (syn = Proto3 -> extr = []) /\
+  msg_numbers_ok rsvr extr (map snd fields) /\
+  (strict_names = true -> Forall ident_ok rsvn) /\
+  no_reserved_name_used rsvn (map fst fields).
+
+(* allow_alias as written: absent, or exactly one boolean; [protoc_alias]: protoc additionally
+   rejects an explicit allow_alias = false (documented divergence) *)
+Inductive alias_opt := AliasAbsent | AliasTrue | AliasFalse | AliasBad.
+
+Definition enum_desc_ok (strict_names protoc_alias : bool) (syn : syntax) (alias : alias_opt)
+           (values : list (name * Z)) (rsv : list (Z * Z)) (rsvn : list name) : Prop :=
+  values <> [] /\
+  alias <> AliasBad /\ (protoc_alias = true -> alias <> AliasFalse) /\
+  (syn = Proto3 -> match values with (_, n) :: _ => n = 0 | [] => True end) /\
+  (alias = AliasTrue -> ~ NoDup (map snd values)) /\
+  (alias <> AliasTrue -> NoDup (map snd values)) /\
+  enum_numbers_ok rsv (map snd values) /\
+  (strict_names = true -> Forall ident_ok rsvn) /\
+  no_reserved_name_used rsvn (map fst values).
+
+(* ------------------------------------------------------------------------------------------ *)
+(* JSON names of the fields of one message.
+   Every field has a default JSON name (ToJsonName of its name) and an effective one (json_name
+   if given).  With JSON support mandatory (proto3, editions) both families of names must be
+   pairwise distinct. *)
+Definition json_names_ok_compliant (defaults effective : list name) : Prop :=
+  NoDup defaults /\ NoDup effective.
+
+(* protoc's CheckFieldJsonNameUniqueness, both passes (descriptor.cc).  A field is (name, json
+   name, json_name option given?).  [seen] keeps the first holder of a name with its custom flag;
+   the result lists, per reported conflict, whether it is an error (true) or a warning (false). *)
+Definition jfield := (name * name * bool)%type.
+
+Fixpoint assoc_nm {A} (n : name) (l : list (name * A)) : option A :=
+  match l with [] => None | (m, v) :: r => if name_eqb n m then Some v else assoc_nm n r end.
+
+Section ProtocJson.
+Variable to_json : name -> name.
+
+Definition protoc_custom (f : jfield) : bool :=
+  let '(nm, js, given) := f in given && negb (name_eqb js (to_json nm)).
+
+Fixpoint protoc_json_loop (compliant useCustom : bool) (seen : list (name * bool)) (fs : list jfield) : list bool :=
+  match fs with
+  | [] => []
+  | f :: r =>
+    let '(nm, js, given) := f in
+    let custom := useCustom && protoc_custom f in
+    let key := if custom then js else to_json nm in
+    match assoc_nm key seen with
+    | Some mcustom =>
+      (if useCustom && negb custom && negb mcustom then []
+       else [negb (negb compliant && (negb custom || negb mcustom))])
+      ++ protoc_json_loop compliant useCustom seen r
+    | None => protoc_json_loop compliant useCustom ((key, custom) :: seen) r
+    end
+  end.
+
+Definition protoc_json_errors (compliant : bool) (fs : list jfield) : list bool :=
+  filter (fun b => b) (protoc_json_loop compliant false [] fs ++ protoc_json_loop compliant true [] fs).
+End ProtocJson.
